@@ -1,4 +1,4 @@
-\* as coded (guard size < MaxLen before an insertion): well-formedness holds, crossover respects MaxLen
+\* the API without the callers' guards: well-formedness must be violated (expected counterexample)
 CONSTANTS
   NObj = 2
   Types = {"A"}
@@ -7,11 +7,9 @@ CONSTANTS
   MaxUses = 1
   MaxStmts = 3
   MaxCtr = 4
-  MaxSteps = 3
+  MaxSteps = 2
   InsertGuard = "as_coded"
-  Raw = FALSE
+  Raw = TRUE
 SPECIFICATION Spec
 INVARIANT AllWF
-INVARIANT CounterOK
-INVARIANT CrossoverLenBound
 CONSTRAINT Bounded
